@@ -13,15 +13,26 @@ case data alone (absolute) and against the single-combination calls
 
 Families of cases
   ctor   every UGen rate constructor whose body is a single
-         `return cls._multi_new(<literal rate>, <parameters in order>)`
-         (found with `ast` at worker start), shapes on every pair of
+         `return cls._multi_new(<literal rate>, <every parameter once,
+         unconverted, in any order>)` (found with `ast` at worker start) plus
+         EXTRA_CTORS (MulAdd.new: computed rate), shapes on every pair of
          parameters (full product for <= 3 parameters)
+  ctorx  the same constructors, rarer shapes one at a time (4-element list,
+         depth 3, list holding a ChannelList and vice versa, ChannelList(value),
+         ChannelList(tuple), tuple inside a list) next to a companion shape
+  call   the class called like a constructor (MetaSynthObject.__call__):
+         Cls(...) and Cls(..., urate=r)
   tuple  list-free calls with one tuple argument: the tuple must sit where a
          scalar would sit (same units, same nesting)
   op     every unary / binary / reflected operator method of AbstractObject on
-         ChannelList and UGen receivers with list operands
-  meth   the convenience methods of ChannelList
-  out    Out / ReplaceOut / OffsetOut / LocalOut / XOut channel arrays
+         ChannelList and UGen receivers with list operands (also the operand
+         left to its default), and the other routes to the same operators:
+         augmented assignment (x op= y) and the functions of
+         sc3.base.builtins with the receiver as first / second argument
+  meth   the convenience methods of ChannelList, their clip= / type= option
+         (strings, None, lists of them), poll with explicit label(s)
+  out    Out / ReplaceOut / OffsetOut / LocalOut / XOut channel arrays given
+         as plain lists and as ChannelLists (also nested)
 """
 
 import ast
@@ -55,13 +66,26 @@ SHAPES = {
     'cc21': lambda a: ['c', ['c', a[0], a[1]], a[2]],
     'cl21': lambda a: ['c', ['l', a[0], a[1]], a[2]],
     'o': lambda a: ['o'],
+    # --- shapes added by the audit (family 'ctorx', operators, methods)
+    'l4': lambda a: ['l', a[0], a[1], a[2], a[3]],       # wrap beyond 2 x len
+    'd3': lambda a: ['l', ['l', ['l', a[0], a[1]], a[2]], a[3]],   # depth 3
+    'lc21': lambda a: ['l', ['c', a[0], a[1]], a[2]],    # list holding a CL
+    'r1c2': lambda a: ['l', a[0], ['c', a[1], a[2]]],    # flat first, CL later
+    'lt': lambda a: ['l', ['t', a[0], a[1]], a[2]],      # tuple inside a list
+    'ks': lambda a: ['k', a[0]],                         # ChannelList(value)
+    'kt': lambda a: ['k', ['t', a[0], a[1]]],            # ChannelList(tuple)
 }
 CTOR_SHAPES = ['s', 't', 'l1', 'l2', 'l3', 'n21', 'n12', 'r12', 'c2', 'o']
+# shapes of family 'ctorx' (none of them is in CTOR_SHAPES)
+CTORX_SHAPES = ['l4', 'd3', 'lc21', 'r1c2', 'cl21', 'cc21', 'c1', 'c3', 'lt',
+                'ks', 'kt']
+CTORX_COMPANIONS = ['l3', 'c2']              # completed in both tiers
+CTORX_COMPANIONS_MORE = ['l2', 'r12', 'n21'] + CTORX_SHAPES
 
 
 def shape_spec(shape, base):
-    """Spec of a shape whose leaves are atoms base, base+1, base+2."""
-    return SHAPES[shape]([['s', base + k] for k in range(3)])
+    """Spec of a shape whose leaves are atoms base, base+1, base+2(, base+3)."""
+    return SHAPES[shape]([['s', base + k] for k in range(4)])
 
 
 # ---------------------------------------------------------------------------
@@ -100,8 +124,23 @@ def _analyse(func):
     names = [x.arg for x in a.args[1:]]
     passed = [x.id if isinstance(x, ast.Name) else None for x in v.args[1:]]
     if names != passed:
-        return False, 'parameters are converted, reordered or spliced'
+        # every parameter handed over untouched exactly once, in another
+        # order (In.ar(bus, channels) -> _multi_new('audio', channels, bus)):
+        # still a direct delegation, the call is made with keywords
+        if None in passed or sorted(names) != sorted(passed):
+            return False, 'parameters are converted or spliced'
     return True, v.args[0].value, names
+
+
+# Constructors that hand their parameters, in order and unconverted, to
+# cls._multi_new but compute the rate argument first (the analyser wants a
+# literal rate): (class key, ctor) -> how the rate is obtained
+EXTRA_CTORS = {('ugen.MulAdd', 'new'): 'computed from the arguments'}
+# Constructors whose units share mutable state of the build: a later call
+# changes an input of the units made by an earlier one, so the single-channel
+# calls cannot be described one by one
+STATEFUL_CTORS = {'bufio.LocalBuf': 'every LocalBuf of a build shares one '
+                  'MaxLocalBufs unit whose count input grows with each call'}
 
 
 def inventory():
@@ -141,8 +180,14 @@ def inventory():
                 if f not in cache:
                     cache[f] = _analyse(f)
                 res = cache[f]
+                if not res[0] and (key, rn) in EXTRA_CTORS:
+                    res = (True, EXTRA_CTORS[(key, rn)],
+                           list(inspect.signature(f).parameters)[1:])
                 if not res[0]:
                     excluded.append([key, rn, res[1]])
+                    continue
+                if key in STATEFUL_CTORS:
+                    excluded.append([key, rn, STATEFUL_CTORS[key]])
                     continue
                 _, rate, params = res
                 if 'selector' in params:
@@ -157,6 +202,7 @@ def inventory():
                               'via': None if owner is c else owner.__name__})
     # operators of AbstractObject: methods that only forward to _compose_*
     unary, binary, reflected = [], [], []
+    binary_default, bi_unary, bi_binary = [], {}, {}
     src = textwrap.dedent(inspect.getsource(aob.AbstractObject))
     for fd in ast.parse(src).body[0].body:
         if not isinstance(fd, ast.FunctionDef):
@@ -172,14 +218,25 @@ def inventory():
                 v.func.value.id == 'self'):
             continue
         nparams = len(fd.args.args) - 1
-        if fd.name in ('__int__', '__float__', '__hash__', '__bool__',
-                       '__round__', '__trunc__', '__ceil__', '__floor__'):
+        if fd.name in ('__int__', '__float__', '__hash__', '__bool__'):
             continue    # conversion protocol of Python, not signal operators
+        sel = v.args[0] if v.args else None
+        if isinstance(sel, ast.Attribute) and \
+                isinstance(sel.value, ast.Name) and sel.value.id == 'bi':
+            bifun = sel.attr       # functional form sc3.base.builtins.<attr>
+        else:
+            bifun = None
         if v.func.attr == '_compose_unop' and nparams == 0:
             unary.append(fd.name)
+            if bifun:
+                bi_unary.setdefault(bifun, fd.name)
         elif v.func.attr == '_compose_binop' and nparams == 1 and \
                 len(v.args) == 2 and isinstance(v.args[1], ast.Name):
             binary.append(fd.name)
+            if fd.args.defaults:
+                binary_default.append(fd.name)
+            if bifun:
+                bi_binary.setdefault(bifun, fd.name)
         elif v.func.attr == '_rcompose_binop' and nparams == 1:
             reflected.append(fd.name)
     # convenience methods of ChannelList
@@ -190,9 +247,15 @@ def inventory():
         if name in ('dup', 'sum'):
             mexcl.append([name, 'no value argument to expand'])
             continue
-        if name in ('poll', 'dpoll'):
+        if name == 'poll':
             mexcl.append([name, 'default label differs from the UGen method '
-                          'by design (not decided by the law)'])
+                          'by design (not decided by the law): enumerated '
+                          'with an explicit label only (POLL_* tables)'])
+            continue
+        if name == 'dpoll':
+            mexcl.append([name, 'default label differs from the UGen method '
+                          'by design, and UGen.dpoll itself cannot be called '
+                          '(no single-channel meaning)'])
             continue
         sig = list(inspect.signature(f).parameters.values())[1:]
         params = [p.name for p in sig]
@@ -208,9 +271,13 @@ def inventory():
         methods.append({'name': name, 'params': params, 'required': req,
                         'perform': perform})
     index = {(c['key'], c['ctor']): c for c in ctors}
+    from sc3.base import builtins as bi
+    bi_unary = sorted(n for n in bi_unary if callable(getattr(bi, n, None)))
+    bi_binary = sorted(n for n in bi_binary if callable(getattr(bi, n, None)))
     _INV = {'index': index, 'ctors': ctors, 'excluded': excluded, 'unary': unary,
             'binary': binary, 'reflected': reflected, 'methods': methods,
-            'methods_excluded': mexcl}
+            'methods_excluded': mexcl, 'binary_default': binary_default,
+            'bi_unary': bi_unary, 'bi_binary': bi_binary}
     return _INV
 
 
@@ -232,6 +299,9 @@ def work_inventory(job):
                                   for k, r, why in inv['excluded']],
         'unary_operators': inv['unary'], 'binary_operators': inv['binary'],
         'reflected_operators': inv['reflected'],
+        'binary_operators_with_default_operand': inv['binary_default'],
+        'functional_forms_unary (sc3.base.builtins)': inv['bi_unary'],
+        'functional_forms_binary (sc3.base.builtins)': inv['bi_binary'],
         'channel_list_methods': [m['name'] for m in inv['methods']],
         'channel_list_methods_excluded': [f'{n}: {why}' for n, why in
                                           inv['methods_excluded']]}
@@ -264,7 +334,7 @@ def make_atoms(table):
     out = {}
     for aid in sorted(table):
         k = table[aid]
-        if k[0] == 'num':
+        if k[0] in ('num', 'str', 'py'):     # number / string / None
             out[aid] = k[1]
         elif k[0] == 'ar':
             out[aid] = oscillators.SinOsc.ar(k[1])
@@ -283,6 +353,8 @@ def materialise(spec, atoms):
         return xs
     if h == 'c':
         return ChannelList(xs)
+    if h == 'k':                  # ChannelList(<one value that is not a list>)
+        return ChannelList(xs[0])
     if h == 't':
         return tuple(xs)
     raise ValueError(spec)
@@ -516,6 +588,56 @@ def ctor_block_cases(inv, block, modes):
                    'args': list(sh), 'mode': mode}
 
 
+def ctorx_cases(inv, modes, companions):
+    """Family 'ctorx': one shape of CTORX_SHAPES on parameter j, the base
+    shape or one companion shape on the next parameter (cyclically), base
+    shapes elsewhere.  `companions` may contain None (= base)."""
+    for c in inv['ctors']:
+        n = len(c['params'])
+        seen = set()
+        for j in range(n):
+            for x in CTORX_SHAPES:
+                for y in companions:
+                    sh = [ctor_base(c, k) for k in range(n)]
+                    sh[j] = x
+                    if y is not None:
+                        if n < 2:
+                            continue
+                        sh[(j + 1) % n] = y
+                    if tuple(sh) in seen:
+                        continue
+                    seen.add(tuple(sh))
+                    for mode in modes:
+                        yield {'t': 'ctor', 'cls': c['key'], 'ctor': c['ctor'],
+                               'args': sh, 'mode': mode}
+
+
+CALL_SHAPES = ['l2', 'r12', 'c2']
+
+
+def call_cases(inv, modes):
+    """Family 'call': the class itself called like a constructor
+    (MetaSynthObject.__call__): Cls(args) selects the constructor of the
+    default rate, Cls(args, urate=r) the one of rate r."""
+    for c in inv['ctors']:
+        cls = _find_class(c['key'])
+        vias = ['urate']
+        try:
+            if cls._method_selector_for_rate(cls._default_rate) == c['ctor']:
+                vias.append('call')
+        except AttributeError:
+            pass
+        n = len(c['params'])
+        for via in vias:
+            for j in range(n):
+                for x in CALL_SHAPES:
+                    sh = [ctor_base(c, k) for k in range(n)]
+                    sh[j] = x
+                    for mode in modes:
+                        yield {'t': 'ctor', 'cls': c['key'], 'ctor': c['ctor'],
+                               'args': sh, 'mode': mode, 'via': via}
+
+
 def ctor_specs(case):
     return [shape_spec(sh, 8 * j) for j, sh in enumerate(case['args'])]
 
@@ -537,14 +659,24 @@ def check_ctor(case):
     names = c['params']
     table = _table(specs, case['mode'])
 
-    def call(atoms, sp):
-        kw = {n: materialise(s, atoms) for n, s in zip(names, sp)
-              if s[0] != 'o'}
-        return fn(**kw)
+    def kwargs(atoms, sp):
+        return {n: materialise(s, atoms) for n, s in zip(names, sp)
+                if s[0] != 'o'}
 
+    def call(atoms, sp):
+        return fn(**kwargs(atoms, sp))
+
+    via = case.get('via')
+    if via == 'call':              # Cls(...): constructor of the default rate
+        top = lambda atoms: cls(**kwargs(atoms, specs))
+    elif via == 'urate':           # Cls(..., urate=<rate of this ctor>)
+        ur = None if case['ctor'] == 'new' else case['ctor']
+        top = lambda atoms: cls(**kwargs(atoms, specs), urate=ur)
+    else:
+        top = lambda atoms: call(atoms, specs)
     tree = mx.expand(specs)
-    res = run_pair(table, lambda atoms: call(atoms, specs), tree, call)
-    dis, outcome = compare_pair('ctor', res)
+    res = run_pair(table, top, tree, call)
+    dis, outcome = compare_pair('ctor-call' if via else 'ctor', res)
     return dis, mx.has_expansion(specs) and outcome[0] != 'undefined', \
         outcome
 
@@ -636,12 +768,22 @@ def check_tuple(case):
 # Family: op (operators of AbstractObject on ChannelList / UGen receivers)
 # ---------------------------------------------------------------------------
 
-RECV_SHAPES = ['s', 'c1', 'c2', 'c3', 'cc21', 'cl21']
+RECV_SHAPES = ['s', 'c1', 'c2', 'c3', 'cc21', 'cl21', 'ks']
 # No tuple operand: a tuple operand of a ChannelList operator is distributed
 # over the channels "as if it were a list" by design (docstring of list_binop,
 # pinned by tests/test_multichannel.py) -> not judged (don't-care).  Tuples
 # stay judged for constructors (family 'tuple').
-OTHER_SHAPES = ['s', 'l1', 'l2', 'l3', 'n21', 'n12', 'r12', 'c2', 'cc21']
+OTHER_SHAPES = ['s', 'l1', 'l2', 'l3', 'n21', 'n12', 'r12', 'c2', 'cc21',
+                'l4', 'd3', 'lc21']
+# routes that reach the same operator: the method itself (None), the augmented
+# assignment statement (x op= y), the functional form of sc3.base.builtins
+# with the receiver first ('bi') or second ('bi-r')
+INPLACE = {'__add__': 'iadd', '__sub__': 'isub', '__mul__': 'imul',
+           '__truediv__': 'itruediv', '__floordiv__': 'ifloordiv',
+           '__mod__': 'imod', '__pow__': 'ipow', '__lshift__': 'ilshift',
+           '__rshift__': 'irshift', '__and__': 'iand', '__or__': 'ior',
+           '__xor__': 'ixor'}
+VIA_SHAPES = ['s', 'l2', 'l3', 'r12', 'c2', 'cc21']   # operands of the routes
 
 
 def op_cases(inv, modes):
@@ -657,23 +799,72 @@ def op_cases(inv, modes):
                 for mode in modes:
                     yield {'t': 'op', 'name': name, 'recv': rs, 'other': os_,
                            'mode': mode}
+    # the operand left to its default (max(), round(), roundup(), trunc())
+    for name in inv['binary_default']:
+        for rs in RECV_SHAPES[1:]:
+            yield {'t': 'op', 'name': name, 'recv': rs, 'other': 'o',
+                   'mode': 'u'}
+    # other routes to the same operators
+    for name in inv['binary']:
+        if name in INPLACE:
+            for rs in RECV_SHAPES:
+                for os_ in VIA_SHAPES:
+                    if rs == 's' and os_ == 's':
+                        continue
+                    for mode in modes:
+                        yield {'t': 'op', 'name': name, 'recv': rs,
+                               'other': os_, 'mode': mode, 'via': 'inplace'}
+    for name in inv['bi_unary']:
+        for rs in RECV_SHAPES[1:]:
+            yield {'t': 'op', 'name': name, 'recv': rs, 'other': None,
+                   'mode': 'u', 'via': 'bi'}
+    for name in inv['bi_binary']:
+        for via in ('bi', 'bi-r'):
+            for rs in RECV_SHAPES:
+                for os_ in VIA_SHAPES:
+                    if rs == 's' and os_ == 's':
+                        continue
+                    for mode in modes:
+                        yield {'t': 'op', 'name': name, 'recv': rs,
+                               'other': os_, 'mode': mode, 'via': via}
+
+
+def _op_call(case):
+    """-> f(receiver value, [operand values]) for the route of the case."""
+    name, via = case['name'], case.get('via')
+    if via is None:
+        return lambda x, ys: getattr(x, name)(*ys)
+    if via == 'inplace':
+        import operator
+        f = getattr(operator, INPLACE[name])       # x op= y; the new x
+        return lambda x, ys: f(x, *ys)
+    from sc3.base import builtins as bi
+    f = getattr(bi, name)
+    if via == 'bi':
+        return lambda x, ys: f(x, *ys)
+    return lambda x, ys: f(*ys, x)
 
 
 def check_op(case):
     recv = shape_spec(case['recv'], 1000)
     specs = [recv]
-    if case['other'] is not None:
+    if case['other'] not in (None, 'o'):
         specs.append(shape_spec(case['other'], 8))
     table = _table(specs, case['mode'])
-    name = case['name']
+    f = _op_call(case)
 
     def call(atoms, sp):
-        x = materialise(sp[0], atoms)
-        return getattr(x, name)(*[materialise(s, atoms) for s in sp[1:]])
+        return f(materialise(sp[0], atoms),
+                 [materialise(s, atoms) for s in sp[1:]])
 
     tree = mx.expand(specs)
     res = run_pair(table, lambda atoms: call(atoms, specs), tree, call)
     fam = 'op-unary' if case['other'] is None else 'op-binary'
+    via = case.get('via')
+    if via == 'inplace':
+        fam = 'op-inplace'
+    elif via:
+        fam += '-builtins'
     fam += '[ugen]' if case['recv'] == 's' else '[chanlist]'
     # Operators: the container type of *nested* results (plain list vs
     # ChannelList) is a don't-care everywhere (tests/test_multichannel.py pins
@@ -689,11 +880,25 @@ def check_op(case):
 
 METH_RECV = ['c1', 'c2', 'c3', 'cc21']
 METH_ARG = ['s', 'l2', 'l3', 'c2', 'n21', 'cc21', 'o']
+# The string option of the mapping methods (`clip=` of linlin..biexp, `type=`
+# of prune): option kind -> spec over string / None atoms.  'o' = left to its
+# default.  A list of options is expanded like every other list argument.
+OPT_PARAMS = ('clip', 'type')
+OPT_KINDS = {'minmax': ['minmax'], 'min': ['min'], 'max': ['max'],
+             'none': [None], 'lminmax': ['min', 'max'],
+             'lnonemin3': [None, 'min', 'minmax']}
+OPT_ARGS = ['s', 'l3']           # shape of the first argument next to it
+# poll(trig, label, trig_id) with the label given (the default label is not
+# decided by the law); label kinds: one string / lists of strings
+POLL_TRIG = ['o', 's', 'l2', 'l3']
+POLL_LABEL = {'S': 1, 'S2': 2, 'S3': 3}
+POLL_TID = ['o', 'l2']
+POLL_RECV = ['c1', 'c2', 'c3', 'cc21', 'ks']
 
 
 def meth_cases(inv, modes):
     for m in inv['methods']:
-        params = [p for p in m['params'] if p not in ('clip', 'type')]
+        params = [p for p in m['params'] if p not in OPT_PARAMS]
         n = len(params)
 
         def fill(sh):
@@ -726,27 +931,83 @@ def meth_cases(inv, modes):
                 for mode in modes:
                     yield {'t': 'meth', 'name': m['name'], 'recv': rs,
                            'args': sh, 'mode': mode}
+        # the string option given explicitly (keyword), scalar and list
+        optname = next((p for p in m['params'] if p in OPT_PARAMS), None)
+        if optname and n:
+            for kind in OPT_KINDS:
+                for first in OPT_ARGS:
+                    sh = fill([first] + ['o'] * (n - 1))
+                    for rs in METH_RECV:
+                        for mode in modes:
+                            yield {'t': 'meth', 'name': m['name'], 'recv': rs,
+                                   'args': sh, 'mode': mode,
+                                   'opt': [optname, kind]}
+    # poll with an explicit label
+    for trig in POLL_TRIG:
+        for label in POLL_LABEL:
+            for tid in POLL_TID:
+                for rs in POLL_RECV:
+                    for mode in modes:
+                        yield {'t': 'meth', 'name': 'poll', 'recv': rs,
+                               'args': [trig, label, tid], 'mode': mode}
+
+
+def meth_specs(case):
+    """-> (specs [receiver, positional arguments...], keyword name or None
+    for the last spec, atom table)"""
+    recv = shape_spec(case['recv'], 1000)
+    args, strs = [], {}
+    for j, sh in enumerate(case['args']):
+        if sh in POLL_LABEL:
+            ids = [8 * (j + 1) + k for k in range(POLL_LABEL[sh])]
+            for aid in ids:
+                strs[aid] = ['str', f'L{aid}']
+            args.append(['s', ids[0]] if sh == 'S' else
+                        ['l'] + [['s', i] for i in ids])
+        else:
+            args.append(shape_spec(sh, 8 * (j + 1)))
+    while args and args[-1][0] == 'o':
+        args.pop()
+    kw = None
+    if case.get('opt'):
+        kw, kind = case['opt']
+        vals = OPT_KINDS[kind]
+        ids = [8 * (len(case['args']) + 1) + k for k in range(len(vals))]
+        for aid, v in zip(ids, vals):
+            strs[aid] = ['py', None] if v is None else ['str', v]
+        args.append(['s', ids[0]] if len(vals) == 1 else
+                    ['l'] + [['s', i] for i in ids])
+    specs = [recv] + args
+    table = _table(specs, case['mode'])
+    table.update(strs)
+    return specs, kw, table
 
 
 def check_meth(case):
-    recv = shape_spec(case['recv'], 1000)
-    args = [shape_spec(sh, 8 * (j + 1)) for j, sh in enumerate(case['args'])]
-    while args and args[-1][0] == 'o':
-        args.pop()
-    specs = [recv] + args
-    table = _table(specs, case['mode'])
+    specs, kw, table = meth_specs(case)
     name = case['name']
 
     def call(atoms, sp):
         x = materialise(sp[0], atoms)
-        return getattr(x, name)(*[materialise(s, atoms) for s in sp[1:]])
+        vals = [materialise(s, atoms) for s in sp[1:]]
+        if kw is not None:
+            return getattr(x, name)(*vals[:-1], **{kw: vals[-1]})
+        return getattr(x, name)(*vals)
 
     tree = mx.expand(specs)
     res = run_pair(table, lambda atoms: call(atoms, specs), tree, call)
-    m = next(x for x in inventory()['methods'] if x['name'] == name)
+    m = next((x for x in inventory()['methods'] if x['name'] == name), None)
     # methods that only forward to _multichannel_perform share one mechanism
-    fam = 'meth[_multichannel_perform]' if m['perform'] else f'meth[{name}]'
+    fam = 'meth[_multichannel_perform]' if m and m['perform'] \
+        else f'meth[{name}]'
     dis, outcome = compare_pair(fam, res)
+    if name == 'poll':
+        # poll hands back its receiver (pass-through by design) instead of
+        # the expansion: the returned value is not judged, the units created
+        # (one Poll per combination, at the rate of its channel) are
+        dis = [d for d in dis if d[0].endswith(('-unit-count-differs',
+                                                '-units-differ')) or
+               '-expanded-call-raises-' in d[0]]
     if dis and any(sh in ('n21', 'cc21') for sh in case['args']):
         # one root cause, one kind: row i of the method is the *UGen* method
         # called with a list argument, and those do not expand
@@ -773,7 +1034,11 @@ ELEMS_AR = {'z': 'z', 'f': 'f', 'A': 'A', 'lAz': ['A', 'z'],
             'lfAA': ['f', 'A', 'A'], 'nAzA': [['A', 'z'], 'A']}
 ELEMS_KR = {'z': 'z', 'n': 'n', 'K': 'K', 'lKn': ['K', 'n'],
             'lzKK': ['z', 'K', 'K'], 'nKzn': [['K', 'z'], 'n']}
-BUS_SHAPES = ['s', 'l2', 'l3', 'n21']
+BUS_SHAPES = ['s', 'l2', 'l3', 'n21', 'c2']
+# containers of the channel array: 'cont' = type of the array itself, 'inner'
+# = type of the nested elements ('l' plain list, 'c' ChannelList - what every
+# expanded constructor / operator returns).  Absent key = 'l'.
+OUT_CONTAINERS = [('l', 'l'), ('c', 'l'), ('l', 'c'), ('c', 'c')]
 
 
 def out_cases(maxlen):
@@ -783,7 +1048,16 @@ def out_cases(maxlen):
         arrays = [{'bare': e} for e in elems if not isinstance(elems[e], list)]
         for ln in range(1, maxlen + 1):
             for combo in itertools.product(elems, repeat=ln):
-                arrays.append({'list': list(combo)})
+                nested = any(isinstance(elems[e], list) for e in combo)
+                for cont, inner in OUT_CONTAINERS:
+                    if inner == 'c' and not nested:
+                        continue          # same case as inner == 'l'
+                    arr = {'list': list(combo)}
+                    if cont != 'l':
+                        arr['cont'] = cont
+                    if inner != 'l':
+                        arr['inner'] = inner
+                    arrays.append(arr)
         buses = BUS_SHAPES if nfixed >= 1 else [None]
         xf = ['s', 'l2'] if nfixed == 2 else [None]
         for b in buses:
@@ -811,13 +1085,14 @@ def out_specs(case):
     arr = case['chans']
     bare = 'bare' in arr
     names = [arr['bare']] if bare else arr['list']
+    inner = arr.get('inner', 'l')
     chans = []
     for p, en in enumerate(names):
         counter = [0]
 
         def conv(e):
             if isinstance(e, list):
-                return ['l'] + [conv(x) for x in e]
+                return [inner] + [conv(x) for x in e]
             aid = 16 + 8 * p + counter[0]
             counter[0] += 1
             table[aid] = {'z': ['num', 0], 'f': ['num', 0.0],
@@ -890,9 +1165,12 @@ def check_out(case):
     rate = 2 if case['ctor'] == 'ar' else 1
 
     def body_a(sd):
+        from sc3.synth.ugen import ChannelList
         atoms = make_atoms(table)
         fx = [materialise(s, atoms) for s in fixed]
         ch = [materialise(s, atoms) for s in chans]
+        if case['chans'].get('cont') == 'c':
+            ch = ChannelList(ch)
         fn(*fx, ch[0] if bare else ch)
 
     calls = mx.calls(mx.expand(list(fixed) + list(chans)))
@@ -963,12 +1241,21 @@ def _expr(spec):
         return f'[{inner}]'
     if h == 'c':
         return f'ChannelList([{inner}])'
+    if h == 'k':
+        return f'ChannelList({inner})'
     return f'({inner},)' if len(spec) == 2 else f'({inner})'
+
+
+_INPLACE_SYM = {'iadd': '+=', 'isub': '-=', 'imul': '*=', 'itruediv': '/=',
+                'ifloordiv': '//=', 'imod': '%=', 'ipow': '**=',
+                'ilshift': '<<=', 'irshift': '>>=', 'iand': '&=', 'ior': '|=',
+                'ixor': '^='}
 
 
 def standalone(case):
     t = case['t']
     imports = []
+    stmt = False          # call(sp) is a statement block that ends in `r = `
     if t in ('ctor', 'tuple'):
         short, cn = case['cls'].split('.')
         mod = 'sc3.synth.ugen' if short == 'ugen' else \
@@ -979,58 +1266,82 @@ def standalone(case):
         table = _table(specs, case['mode'])
         # parameter names are resolved at run time to keep this plain data
         head = f"{cn}.{case['ctor']}"
+        via = case.get('via')
 
         def call(sp):
             args = ', '.join(f'**{{P[{j}]: {_expr(x)}}}'
                              for j, x in enumerate(sp) if x[0] != 'o')
+            if sp is specs and via == 'call':
+                return f'{cn}({args})'
+            if sp is specs and via == 'urate':
+                ur = None if case['ctor'] == 'new' else case['ctor']
+                return f'{cn}({args}, urate={ur!r})'
             return f'{head}({args})'
         pre = (f'import inspect\nP = list(inspect.signature({head})'
                f'.parameters)\n')
     elif t == 'op':
         specs = [shape_spec(case['recv'], 1000)]
-        if case['other'] is not None:
+        if case['other'] not in (None, 'o'):
             specs.append(shape_spec(case['other'], 8))
         table = _table(specs, case['mode'])
         pre = ''
+        via = case.get('via')
+        if via in ('bi', 'bi-r'):
+            pre = 'from sc3.base import builtins as bi\n'
+        stmt = via == 'inplace'
 
         def call(sp):
-            return (f"{_expr(sp[0])}.{case['name']}("
-                    + ', '.join(_expr(x) for x in sp[1:]) + ')')
+            xs = [_expr(x) for x in sp]
+            if via == 'inplace':
+                sym = _INPLACE_SYM[INPLACE[case['name']]]
+                return f"r = {xs[0]}; r {sym} {xs[1]}"
+            if via == 'bi':
+                return f"bi.{case['name']}({', '.join(xs)})"
+            if via == 'bi-r':
+                return f"bi.{case['name']}({', '.join(xs[1:] + xs[:1])})"
+            return f"{xs[0]}.{case['name']}(" + ', '.join(xs[1:]) + ')'
     elif t == 'meth':
-        args = [shape_spec(sh, 8 * (j + 1))
-                for j, sh in enumerate(case['args'])]
-        while args and args[-1][0] == 'o':
-            args.pop()
-        specs = [shape_spec(case['recv'], 1000)] + args
-        table = _table(specs, case['mode'])
+        specs, kw, table = meth_specs(case)
         pre = ''
 
         def call(sp):
-            return (f"{_expr(sp[0])}.{case['name']}("
-                    + ', '.join(_expr(x) for x in sp[1:]) + ')')
+            xs = [_expr(x) for x in sp[1:]]
+            if kw is not None:
+                xs[-1] = f'{kw}={xs[-1]}'
+            return f"{_expr(sp[0])}.{case['name']}(" + ', '.join(xs) + ')'
     else:
         fixed, chans, bare, table = out_specs(case)
         imports.append(f"from sc3.synth.ugens.inout import {case['cls']}")
         specs = list(fixed) + list(chans)
         pre = ''
         nf = len(fixed)
+        cont = case['chans'].get('cont', 'l')
 
         def call(sp):
             fx = [_expr(x) for x in sp[:nf]]
             ch = [_expr(x) for x in sp[nf:]]
-            arr = ch[0] if (bare and len(ch) == 1 and sp is specs) \
-                else '[' + ', '.join(ch) + ']'
+            if bare and len(ch) == 1 and sp is specs:
+                arr = ch[0]
+            else:
+                arr = '[' + ', '.join(ch) + ']'
+                if cont == 'c' and sp is specs:
+                    arr = f'ChannelList({arr})'
             return f"{case['cls']}.{case['ctor']}({', '.join(fx + [arr])})"
     atoms = []
     for aid in sorted(table):
         k = table[aid]
-        if k[0] == 'num':
+        if k[0] in ('num', 'str', 'py'):
             atoms.append(f'    x{aid} = {k[1]!r}')
         else:
             atoms.append(f'    x{aid} = SinOsc.{k[0]}({k[1]!r})')
     atoms = '\n'.join(atoms) or '    pass'
-    singles = '\n'.join(f"    print('   ', {call(c)})"
-                        for c in mx.calls(mx.expand(specs)))
+
+    def show(c, label):
+        if stmt:
+            return f"    {call(c)}\n    print({label!r}, r)"
+        return f"    print({label!r}, {call(c)})"
+
+    singles = '\n'.join(show(c, '   ') for c in mx.calls(mx.expand(specs)))
     finish = t == 'out'
     tail = ("\nfor g in (with_lists, one_call_per_combination):\n"
             "    try:\n        sd = SynthDef('c03', g)\n"
@@ -1044,7 +1355,7 @@ def standalone(case):
         "from sc3.synth.ugens.oscillators import SinOsc\n"
         + ''.join(i + '\n' for i in imports) + pre +
         f"\ndef with_lists():\n{atoms}\n"
-        f"    print('with lists:', {call(specs)})\n"
+        f"{show(specs, 'with lists:')}\n"
         f"\ndef one_call_per_combination():\n{atoms}\n"
         f"    print('one call per combination:')\n{singles}\n" + tail)
 
@@ -1095,6 +1406,13 @@ def work_list(job):
         gen = meth_cases(inv, job['modes'])
     elif fam == 'out':
         gen = out_cases(job['maxlen'])
+    elif fam == 'ctorx':
+        gen = ctorx_cases(inv, job['modes'], job['companions'])
+        if job.get('slice_of'):
+            gen = (c for i, c in enumerate(gen)
+                   if i % job['slice_of'] == job['slice_ix'])
+    elif fam == 'call':
+        gen = call_cases(inv, job['modes'])
     else:
         raise ValueError(fam)
     _run_cases((c for i, c in enumerate(gen)
@@ -1123,7 +1441,7 @@ PREDICATES = {
 
 def main(ctx):
     ctx.rule = (
-        'E1: every case of five families is executed twice inside real '
+        'E1: every case of seven families is executed twice inside real '
         'SynthDef builds (with lists / with the list-free calls of the '
         'expansion tree computed from the plain-data shapes). Distinct = '
         'literally different case (class, constructor, shape per parameter, '
@@ -1144,7 +1462,18 @@ def main(ctx):
         'enumerated (distributed like a list by design, pinned by the test '
         'suite); inner containers of nested operator results are compared '
         'up to list-vs-ChannelList, the top-level container must be a '
-        'ChannelList']
+        'ChannelList',
+        'ChannelList.poll: only calls with an explicit label are enumerated '
+        '(the default label differs from UGen.poll by design) and the value '
+        'handed back (the receiver, pass-through by design) is not judged, '
+        'only the units created; dpoll is not enumerated (UGen.dpoll cannot '
+        'be called); a channel list that holds plain numbers as receiver of a '
+        'convenience method is not enumerated (a number has no such method: '
+        'no single-channel meaning)',
+        'functions of sc3.base.builtins are judged only for unary and binary '
+        'operators (n-ary ones are not defined for unit generators)',
+        'constructors whose units share mutable state of the build '
+        '(STATEFUL_CTORS: LocalBuf) are excluded']
     inv = None
     for res in ctx.map('nrt', MODNAME, 'work_inventory', [{}]):
         inv = res['inventory']
@@ -1161,6 +1490,44 @@ def main(ctx):
                        'product for <= 3 parameters'
                        + (', every triple for 4-7 parameters' if thorough
                           else '') + '), atom modes ' + '/'.join(cmodes))
+    # ctorx: the rarer shapes, one at a time, next to a companion shape
+    xmodes = ['n', 'm', 'u'] if thorough else ['m']
+    nx = len(CTORX_SHAPES)
+    progenum.run(ctx, MODNAME, 'work_list',
+                 [{'family': 'ctorx', 'shard': i, 'of': NS, 'modes': xmodes,
+                   'companions': [None] + CTORX_COMPANIONS}
+                  for i in range(NS)],
+                 bound=f'ctorx: each of {nx} further shapes (4-element list, '
+                       'depth 3, list holding a ChannelList and vice versa, '
+                       'ChannelList(value), ChannelList(tuple), tuple inside '
+                       'a list ...) on every parameter x {base, '
+                       + ', '.join(CTORX_COMPANIONS) + '} on the next '
+                       'parameter, atom modes ' + '/'.join(xmodes))
+    more = {'family': 'ctorx', 'of': NS, 'modes': ['m', 'u'] if thorough
+            else ['m'], 'companions': CTORX_COMPANIONS_MORE}
+    if thorough:
+        progenum.run(ctx, MODNAME, 'work_list',
+                     [dict(more, shard=i) for i in range(NS)],
+                     bound=f'ctorx: {nx} further shapes x '
+                           f'{len(CTORX_COMPANIONS_MORE)} more companion '
+                           'shapes on the next parameter, atom modes m/u')
+    else:
+        k = 8
+        progenum.run(ctx, MODNAME, 'work_list',
+                     [dict(more, shard=i, slice_of=k,
+                           slice_ix=core.pick_slice(ctx.seed, k))
+                      for i in range(NS)],
+                     bound=f'ctorx: {nx} further shapes x '
+                           f'{len(CTORX_COMPANIONS_MORE)} more companion '
+                           f'shapes, 1/{k} slice chosen by seed (not '
+                           'exhaustive)')
+    progenum.run(ctx, MODNAME, 'work_list',
+                 [{'family': 'call', 'shard': i, 'of': 16,
+                   'modes': ['m', 'u'] if thorough else ['m']}
+                  for i in range(16)],
+                 bound='call: the class called like a constructor (default '
+                       'rate / urate=), shapes ' + '/'.join(CALL_SHAPES)
+                       + ' on every parameter')
     progenum.run(ctx, MODNAME, 'work_list',
                  [{'family': 'tuple', 'shard': i, 'of': 16}
                   for i in range(16)],
@@ -1168,20 +1535,28 @@ def main(ctx):
                        'atom modes n/u')
     omodes = ['n', 'u', 'm'] if thorough else ['n', 'u']
     progenum.run(ctx, MODNAME, 'work_list',
-                 [{'family': 'op', 'shard': i, 'of': 32, 'modes': omodes}
-                  for i in range(32)],
-                 bound='op: every operator x 6 receiver shapes x 9 operand '
-                       'shapes, operand atom modes ' + '/'.join(omodes))
+                 [{'family': 'op', 'shard': i, 'of': 64, 'modes': omodes}
+                  for i in range(64)],
+                 bound=f'op: every operator x {len(RECV_SHAPES)} receiver '
+                       f'shapes x {len(OTHER_SHAPES)} operand shapes (+ '
+                       'operand left to its default), and the routes '
+                       'augmented assignment / sc3.base.builtins function '
+                       f'(either operand order) x {len(VIA_SHAPES)} operand '
+                       'shapes; operand atom modes ' + '/'.join(omodes))
     mmodes = ['n', 'u', 'm'] if thorough else ['m']
     progenum.run(ctx, MODNAME, 'work_list',
                  [{'family': 'meth', 'shard': i, 'of': 64, 'modes': mmodes}
                   for i in range(64)],
                  bound='meth: every ChannelList method x 4 receiver shapes x '
-                       '7 shapes on every pair of arguments, argument atom '
-                       'modes ' + '/'.join(mmodes))
+                       '7 shapes on every pair of arguments; the clip=/type= '
+                       f'option x {len(OPT_KINDS)} values (strings, None, '
+                       'lists of them); poll with explicit label(s); '
+                       'argument atom modes ' + '/'.join(mmodes))
     maxlen = 3 if thorough else 2
     progenum.run(ctx, MODNAME, 'work_list',
-                 [{'family': 'out', 'shard': i, 'of': 32, 'maxlen': maxlen}
-                  for i in range(32)],
-                 bound=f'out: 9 output constructors x 4 bus shapes x channel '
-                       f'arrays of <= {maxlen} elements over 6 element kinds')
+                 [{'family': 'out', 'shard': i, 'of': 64, 'maxlen': maxlen}
+                  for i in range(64)],
+                 bound=f'out: 9 output constructors x {len(BUS_SHAPES)} bus '
+                       f'shapes x channel arrays of <= {maxlen} elements '
+                       'over 6 element kinds x list/ChannelList as array '
+                       'and as nested element')
